@@ -46,6 +46,8 @@ var suites = map[string]func(o corrOpts) *res.Summary{
 	"prog":    corrProg,
 	"layout":  corrLayout,
 	"ignore":  corrIgnore,
+	"bin":     corrBin,
+	"excl":    corrExcl,
 }
 
 func runCorr(args []string) int {
